@@ -29,6 +29,10 @@ pub struct WireState {
     /// back-pressure: every other `poll_write` returns Pending first
     pub pend_toggle: bool,
     pub pend_state: bool,
+    /// virtual instant of every recorded write
+    pub times: Vec<tokio::time::Instant>,
+    /// woken on every write (scripted peers wait on it)
+    pub notify: Option<Arc<tokio::sync::Notify>>,
 }
 
 pub struct RecWriter(pub Arc<Mutex<WireState>>);
@@ -57,6 +61,8 @@ impl AsyncWrite for RecWriter {
         }
         let n = match w.max_write { Some(m) if m > 0 => std::cmp::min(m, buf.len()), _ => buf.len() };
         w.writes.push(buf[..n].to_vec());
+        w.times.push(tokio::time::Instant::now());
+        if let Some(nf) = w.notify.as_ref() { nf.notify_one(); }
         Poll::Ready(Ok(n))
     }
     fn poll_flush(self: Pin<&mut Self>, _cx: &mut Context<'_>) -> Poll<std::io::Result<()>> {
